@@ -1,5 +1,6 @@
 SPECIFICATION GSpec
-CONSTANTS Cases <- GQuick
+CONSTANTS Devs = {}
+          Cases <- GQuick
           GF = 4
           FPKeys = {}
 INVARIANTS Emit1 StackIsRecursive EmitSafe EmitOnce NoFalseNegative CountRight
